@@ -124,6 +124,22 @@ def run_property(pid, tier, seed):
         except Exception as e:
             errors.append({"function": getattr(lem, "__name__", "lemma"), "error": f"{type(e).__name__}: {e}",
                            "traceback": traceback.format_exc()[-3000:]})
+    # bounded conformance tests of the assumed contracts this property rests on (never counted as proved)
+    conf_results = []
+    if spec.get("conformance"):
+        from stubs import conformance
+        try:
+            conf_results = conformance.run(spec["conformance"], seed=seed, thorough=(tier == "thorough"),
+                                           workdir=os.environ.get("PYVC_WORK"))
+        except Exception as e:
+            errors.append({"function": "stub conformance", "error": f"{type(e).__name__}: {e}", "traceback": traceback.format_exc()[-2000:]})
+        for cr in conf_results:
+            if cr["failures"]:
+                errors.append({"function": "stub conformance", "error": f"assumed contract does not match the real library: {cr['what']}: {cr['failures'][:2]}"})
+    spec = dict(spec)
+    spec["bounded"] = list(spec.get("bounded", [])) + [
+        {"what": cr["what"], "bound": cr["bound"], "cases": cr["cases"], "failures": len(cr["failures"]),
+         "role": "conformance test of an ASSUMED contract (stub) against the real library/OS; not part of the proof"} for cr in conf_results]
     for e in errors:
         print(f"CHECKER-ERROR property={pid} function={e['function']} {e['error']}")
         if os.environ.get("VERIF_DEBUG"):
